@@ -134,7 +134,7 @@ TypeName(v) == CASE v.t = "int" -> "int" [] v.t = "bool" -> "bool" [] v.t = "str
 
 \* ---------------------------------------------------------------- the evaluator
 RECURSIVE Ev(_, _), EvNode(_, _), TryClauses(_, _, _, _), Interp(_, _, _, _), EvSeq(_, _, _), EvArgs(_, _, _, _), Call(_, _, _), CallFn(_, _, _, _), TryFuns(_, _, _, _), While(_, _), ForLoop(_, _),
-          RFor(_, _, _, _), Cases(_, _, _, _, _), ElseIfs(_, _, _), VecLit(_, _, _, _), MapLit(_, _, _, _, _), Assign(_, _, _)
+          RFor(_, _, _, _), RForMap(_, _, _, _), Cases(_, _, _, _, _), ElseIfs(_, _, _), VecLit(_, _, _, _), MapLit(_, _, _, _, _), Assign(_, _, _)
 
 \* evaluates a sequence of statements; the value of the last one is the value of the block
 EvSeq(b, i, M) == IF i > Len(b) THEN Norm(M, 0)
@@ -245,6 +245,19 @@ RFor(e, es, i, M) ==
       r == Block(e.b, M1)
       M2 == PopScope(r.M) IN
   IF r.ctl = "brk" THEN Norm(M2, 0) ELSE IF r.ctl \in {"norm", "cont"} THEN RFor(e, es, i + 1, M2) ELSE R(M2, r.ctl, r.d)
+
+\* for (p : map): in key order; p is a pair whose `first` is the (const) key and whose `second` IS the element
+RForMap(e, mo, k, M) ==
+  IF k > Len(KeyOrder) THEN Norm(M, 0) ELSE
+  LET o == M.objs[mo]  i == SelectInSeq(o.keys, LAMBDA x : x = KeyOrder[k]) IN
+  IF i = 0 THEN RForMap(e, mo, k + 1, M) ELSE
+  LET Mk == NewCell(M, VStr(KeyOrder[k]), TRUE)
+      Mp == NewObj(Mk, Obj("obj", "Pair", <<"first", "second">>, <<LastCell(Mk), o.e[i]>>, NoAst, <<>>))
+      Mc == NewCell(Mp, VRef("obj", LastObj(Mp)), FALSE)
+      M1 == Bind(PushScope(Mc), e.n, LastCell(Mc))
+      r == Block(e.b, M1)
+      M2 == PopScope(r.M) IN
+  IF r.ctl = "brk" THEN Norm(M2, 0) ELSE IF r.ctl \in {"norm", "cont"} THEN RForMap(e, mo, k + 1, M2) ELSE R(M2, r.ctl, r.d)
 
 \* switch: first case equal to the value, then falls through (a default reached in sequence always runs) until break
 Cases(cs, i, M, sv, matched) ==
@@ -413,7 +426,8 @@ EvNode(e, M) ==
                        IF i.ctl # "norm" THEN R(PopScope(i.M), i.ctl, 0) ELSE
                        LET r == ForLoop(e, i.M) IN R(PopScope(r.M), r.ctl, IF r.ctl = "ret" THEN r.d ELSE 0))
     [] e.k = "rfor" -> (LET c == Ev(e.e, M) IN IF c.ctl # "norm" THEN c ELSE
-                        IF Val(c.M, c.d).t # "vec" THEN Err(c.M, "ee") ELSE RFor(e, c.M.objs[Val(c.M, c.d).r].e, 1, c.M))
+                        IF Val(c.M, c.d).t = "map" THEN RForMap(e, Val(c.M, c.d).r, 1, c.M)
+                        ELSE IF Val(c.M, c.d).t # "vec" THEN Err(c.M, "ee") ELSE RFor(e, c.M.objs[Val(c.M, c.d).r].e, 1, c.M))
     [] e.k = "switch" -> (LET s == Ev(e.e, M) IN IF s.ctl # "norm" THEN s ELSE
                           LET r == Cases(e.cases, 1, PushScope(s.M), Val(s.M, s.d), FALSE) IN R(PopScope(r.M), r.ctl, IF r.ctl = "ret" THEN r.d ELSE 0))
     [] e.k = "interp" -> Interp(e.parts, 1, M, "")
